@@ -302,7 +302,16 @@ async fn process_bufs(
             }
         };
         let cc_fut = async { compressor_client.data(bufs_arc).await };
-        let (_, _) = tokio::try_join!(lsc_fut, cc_fut)?;
+        let (lsc_res, cc_res) = tokio::join!(lsc_fut, cc_fut);
+        cc_res?;
+        if let Err(e) = lsc_res {
+            // Streaming is best effort: a listener that went away must not fail the task.
+            debug!(
+                error = e.to_string(),
+                "Log stream write failed; streaming disabled for this task"
+            );
+            *log_stream_client = None;
+        }
     }
     if should_end {
         compressor_client.end().await?;
